@@ -600,8 +600,26 @@ class Body:
             c[bb] = self.reach(self.succ(bb))
         return c[bb]
 
+    def restricted(self, blocks):
+        """Context manager: while active, only definitions located in `blocks` are considered by def_reaches (and so
+        by slices, linear forms, reaching-definition walks). Used to evaluate values on a CFG specialised to one enum
+        variant / one value of a flag (common.variant_reach / bool_reach)."""
+        body = self
+
+        class _R:
+            def __enter__(self_inner):
+                self_inner.old = getattr(body, "_within", None)
+                body._within = set(blocks) if blocks is not None else None
+
+            def __exit__(self_inner, *a):
+                body._within = self_inner.old
+        return _R()
+
     def def_reaches(self, d, use_bb):
         """Def record d may influence a use located in block use_bb (CFG reachability)."""
+        w = getattr(self, "_within", None)
+        if w is not None and d.get("bb", -1) >= 0 and d["bb"] not in w:
+            return False
         if use_bb is None:
             return True
         db = d.get("bb", -1)
@@ -973,8 +991,11 @@ def inline_new_helpers(d, max_blocks=250, rounds=4):
         b = bodies.get(name)
         if b is None or name in sigs or b.get("kind") not in ("Fn", "AssocFn") or b.get("api"):
             return False
-        if (b.get("impl") or {}).get("trait") or len(b.get("blocks", [])) > max_blocks:
+        tr = (b.get("impl") or {}).get("trait")
+        if len(b.get("blocks", [])) > max_blocks:
             return False
+        if tr and not tr.startswith(("std::convert::From", "std::convert::Into", "std::default::Default")):
+            return False        # conversions of a new private type are helpers; other trait impls are dispatch targets
         if b.get("file") in ("src/in_memory.rs",):
             return False
         for blk in b["blocks"]:
